@@ -7,8 +7,9 @@ end-session endpoint (post_logout_redirect_uri).
 
 Model side (coqc): Model/Uri.v (unquote / urlparse / hostname / port / parse_qs / verify_uri / decide),
 Model/Delivery.v (query, fragment, form_post, logout target) and Model/Flight.v (several requests in flight
-at one endpoint object: the schedule of calls is run on the model's state-passing endpoint) are evaluated on
-the same inputs with the implementation's observed outputs embedded.
+at one endpoint object: the schedule of calls is run on the model's state-passing endpoint; the completion
+step `complete` under the registration in force when the response is built, `answer_at` for the history of a
+parsed or stored request) are evaluated on the same inputs with the implementation's observed outputs embedded.
 
 Oracle (independent of the model, written from the property text): an RFC 3986 regular-expression
 splitter and a component comparison on the percent-decoded redirect URI against the *table* of
@@ -36,16 +37,31 @@ RULE = ("redirect_uri strings derived from every registered URI of 16 client con
         "clients with different registrations, the same client twice with two of its URIs, refused URIs in between, "
         "response types x modes) whose calls parse_request / process_request or setup_auth|create_session + authz_part2 "
         "/ do_response are interleaved on ONE endpoint object: all parse orders x all processing orders for two and "
-        "three requests, then random merges of the calls; a case is distinct by (configuration, endpoint "
-        "type, uri, mode, state) resp. (requests, schedule)")
+        "three requests, then random merges of the calls; the SECOND judgement of the redirect URI (when the response is "
+        "built): every accepted form of every registered URI of 13 configurations x 16 re-registrations of the client "
+        "(same / added / reordered / dropped / replaced / nothing / path, host, port, scheme, userinfo, query moved / "
+        "application type flipped / client deleted / dropped and registered again) taking place before parse, after parse "
+        "or after login, x process_request | setup_auth | create_session continuation x response types x modes, with "
+        "and without the session ending before completion (an error built by authz_part2), with and without a second "
+        "client's request in flight; flows resumed from a STORED request (create_session + authz_part2, never parsed): "
+        "the single-fault matrix and multi-fault mutants of the registered URIs, never registered and formerly registered "
+        "URIs, x response types x modes; valid requests that also carry the names of the provider's own result "
+        "dictionaries (error, return_uri, response_args, redirect_location, response_msg, fragment_enc, ... 20 names: each "
+        "alone with every listed value, next to error / return_uri / response_args, random subsets, all at once) through "
+        "parse_request -> process_request -> do_response(**result); a case is distinct by (configuration, endpoint "
+        "type, uri, mode, state, extra parameters) resp. (requests, schedule, re-registrations)")
 ASSUMPTIONS = [
     "CPython urllib.parse / html.escape behave as modelled on the ASCII fragment (validated differentially on every run)",
     "bracketed hosts outside the literal table of Model/Uri.v and percent-escapes decoding to bytes >= 0x80 are Unmodelled",
     "a user agent decodes exactly the five character references html.escape emits (html_unescape5) inside attribute values",
     "registered query dictionaries have unique keys (Python dict) and list-of-string values",
-    "flights: the client registrations do not change while requests are in flight; the response arguments (code, tokens, "
-    "state, iss, client_id) are taken as issued by session management (their binding to the request is checked by the "
-    "oracle through the session manager, not modelled); calls are interleaved at call granularity (no preemption inside a call)",
+    "flights: the response arguments (code, tokens, state, iss, client_id; the parameters of an error message) are taken as "
+    "issued by session management (their binding to the request is checked by the "
+    "oracle through the session manager, not modelled); calls are interleaved at call granularity (no preemption inside a call); "
+    "a registration change is one atomic event between two calls; a client is deleted only right before the completion call",
+    "completion: a failed completion is produced by ending the session between login and authz_part2; the session-management "
+    "branch of authz_part2 (check_session_iframe configured: 'No such session' / 'Authentication has timed out' errors) is not "
+    "configured on the providers driven here",
 ]
 
 LOOP6 = "0000:0000:0000:0000:0000:0000:0000:0001"
@@ -452,13 +468,86 @@ def is_ascii(s):
 
 
 
+class Shared:
+    """Elaborating string literals is what makes coqc slow on case files: strings and sub-terms that repeat (the
+    registered URIs, parameter names, issuer, client ids) are emitted once per shard as a Definition."""
+    NAME = re.compile(r"\bsh_\d+\b")
+
+    def __init__(self):
+        self.names, self.defs, self.order = {}, {}, []
+
+    def share(self, text, ty):
+        n = self.names.get((ty, text))
+        if n is None:
+            n = "sh_%d" % len(self.order)
+            self.names[(ty, text)] = n
+            self.defs[n] = (ty, text)
+            self.order.append(n)
+        return n
+
+    def s(self, string):
+        return self.share(coq_str(string), "pystr")
+
+    def prelude(self, texts):
+        need, stack = set(), []
+        for t in texts:
+            stack.extend(self.NAME.findall(t))
+        while stack:
+            n = stack.pop()
+            if n in need or n not in self.defs:
+                continue
+            need.add(n)
+            stack.extend(self.NAME.findall(self.defs[n][1]))
+        return "".join("Definition %s : %s := %s.\n" % (n, self.defs[n][0], self.defs[n][1]) for n in self.order if n in need)
+
+
+def check_cases_shared(ctx, g):
+    """like Ctx.coq_check_cases, every shard starting with the shared definitions its cases refer to"""
+    from concurrent.futures import ThreadPoolExecutor
+    sh, cases, shard, label = g["shared"], g["cases"], g.get("shard", 300), g["label"]
+    jobs = []
+    for i in range(0, len(cases), shard):
+        part = cases[i:i + shard]
+        ctx.shard_seq += 1
+        name = "%s_%s_%03d" % (ctx.prop, label, ctx.shard_seq)
+        body = "%sDefinition cases : list (%s) := [\n%s\n].\nEval vm_compute in (bad_indices (%s) cases).\n" % (
+            sh.prelude([t for t, _ in part]), g["type"], ";\n".join(t for t, _ in part), g["chk"])
+        jobs.append((name, body, part))
+    with ThreadPoolExecutor(max_workers=min(E.NCPU, max(1, len(jobs)))) as ex:
+        results = list(ex.map(lambda job: (job, ctx.coq_eval(job[0], g["imports"], job[1])), jobs))
+    for (name, body, part), (rc, out, vals) in results:
+        if rc != 0 or not vals:
+            ctx.broken.append("correspondence shard %s does not evaluate: %s" % (name, out.strip()[-600:]))
+            continue
+        try:
+            idx = E.parse_nat_list(vals[-1])
+        except ValueError as e:
+            ctx.broken.append("correspondence shard %s: %s" % (name, e))
+            continue
+        ctx.traces += len(part)
+        dvals = {}
+        if idx and g.get("diag"):
+            texts = [part[k][0] for k in idx[:5]]
+            dbody = sh.prelude(texts) + "".join("Eval vm_compute in (%s (%s)).\n" % (g["diag"], t) for t in texts)
+            drc, dout, dv = ctx.coq_eval(name + "_diag", g["imports"], dbody)
+            dvals = dict(zip(idx[:5], dv))
+        for k in idx:
+            ctx.mismatch("model and implementation disagree (%s, %s[%d])" % (label, name, k), part[k][1],
+                         model=dvals.get(k, "(model answer not printed)"))
+
+
 def check_groups(ctx, groups):
     """run several ctx.coq_check_cases groups concurrently (each group shards in parallel itself)"""
     from concurrent.futures import ThreadPoolExecutor
     groups = [g for g in groups if g["cases"]]
+
+    def one(g):
+        if g.get("shared") is not None:
+            return check_cases_shared(ctx, g)
+        return ctx.coq_check_cases(g["imports"], g["type"], g["chk"], g["cases"], shard=g.get("shard", 300),
+                                   label=g["label"], diag=g.get("diag"))
     with ThreadPoolExecutor(max_workers=max(1, len(groups))) as ex:
-        list(ex.map(lambda g: ctx.coq_check_cases(g["imports"], g["type"], g["chk"], g["cases"], shard=g.get("shard", 300),
-                                                  label=g["label"], diag=g.get("diag")), groups))
+        list(ex.map(one, groups))
 
 # ------------------------------------------------------------------ urllib differential (model of the glue)
 class UrlDiff:
@@ -654,7 +743,8 @@ class Op:
         placement = info.get("response_placement", ep.response_placement)
         obs["return_uri"] = args.get("return_uri")
         ra = args.get("response_args")
-        obs["final_args"] = list(ra.items()) if ra is not None else None
+        obs["final_args"] = list(ra.items()) if hasattr(ra, "items") else None
+        obs["result_type"] = type(args).__name__
         obs["issued"] = self.issued
         obs["fragment_enc"] = args.get("fragment_enc")
         obs["return_type"] = args.get("return_type")
@@ -705,7 +795,7 @@ def oracle_delivery(ctx, obs, req, rec, expected_target):
     if obs["redirect"] is not None:
         url = obs["redirect"]
         ret = expected_target
-        issued = expect_pairs(obs["final_args"] or [])
+        issued = expect_pairs(obs.get("final_args") or [])
         if not url.startswith(ret):
             ctx.violation("target-changed", "redirect %r does not start with the verified redirect_uri %r" % (url, ret), rec)
             return
@@ -730,7 +820,7 @@ def oracle_delivery(ctx, obs, req, rec, expected_target):
             ctx.violation("state-altered", "state %r is issued as %r" % (state, dict(issued).get("state")), rec)
     elif obs["page"] is not None:
         page = obs["page"]
-        issued = expect_pairs(obs["issued"] or [])
+        issued = expect_pairs(obs.get("issued") or [])
         fr = FormReader()
         fr.feed(page)
         fr.close()
@@ -781,6 +871,7 @@ def coq_args(items):
 
 
 TOKEN_RE = re.compile(r"^[A-Za-z0-9_.=\-]{40,}$")
+TOKEN_SUB = re.compile(r"[A-Za-z0-9_.=\-]{40,}")
 
 
 def shorten(items, text, enc):
@@ -794,12 +885,71 @@ def shorten(items, text, enc):
             if text.count(enc(v)) == 1 and text.count(enc(short)) == 0:
                 text = text.replace(enc(v), enc(short))
                 v = short
+        elif isinstance(v, str) and k == "error_description":
+            # an error description that quotes one opaque token (a session id)
+            m = TOKEN_SUB.search(v)
+            if m and len(TOKEN_SUB.findall(v)) == 1:
+                tok = m.group(0)
+                short = tok[:8] + tok[-6:]
+                if text.count(enc(tok)) == 1 and text.count(enc(short)) == 0:
+                    text = text.replace(enc(tok), enc(short))
+                    v = v.replace(tok, short)
         out.append((k, v))
     return out, text
 
 RTYPES_OIDC = ["code", "id_token", "id_token token", "code id_token", "code token", "code id_token token"]
 RTYPES_OAUTH = ["code", "token"]
 MODES = [None, "query", "fragment", "form_post"]
+
+
+# request parameters that mean something only in the provider's OWN result dictionaries (what process_request /
+# authz_part2 hand to do_response, and what do_response hands to the host)
+EVIL = "https://evil.example.org/collect"
+SMUGGLE = {
+    "error": ["access_denied", "x"],
+    "error_description": ["go away", "<script>alert(1)</script>"],
+    "error_uri": [EVIL],
+    "return_uri": [EVIL, EVIL + "?a=b", "//evil.example.org/"],
+    "redirect_location": [EVIL],
+    "response_args": ['{"code": "stolen"}', "x"],
+    "fragment_enc": ["true", "1"],
+    "return_type": ["token", "id_token token"],
+    "response_placement": ["url", "body"],
+    "response_msg": ['<html><body onload="document.forms[0].submit()"><form method="post" action="%s"></form></body></html>' % EVIL, "x"],
+    "response": [EVIL],
+    "content_type": ["text/html", "application/json"],
+    "http_headers": ["Location: " + EVIL, '[["Location", "%s"]]' % EVIL],
+    "http_response": ["<html>login at %s</html>" % EVIL],
+    "cookie": ["oidc_op=forged", '[{"name": "oidc_op", "value": "forged"}]'],
+    "session_id": ["forged-session", "diana;;client_1;;x"],
+    "function": ["x"],
+    "args": ["x"],
+    "identity": ['{"uid": "admin"}'],
+    "user": ["admin"],
+}
+
+
+def smuggle_sets(rng, quick):
+    """every name alone (every listed value), every name next to `error`, `return_uri` and `response_args`,
+    random subsets, and all of them at once"""
+    names = sorted(SMUGGLE)
+    out = []
+    for n in names:
+        for v in SMUGGLE[n]:
+            out.append({n: v})
+    for lead in ("error", "return_uri", "response_args"):
+        for n in names:
+            if n != lead:
+                out.append({lead: SMUGGLE[lead][0], n: rng.choice(SMUGGLE[n])})
+    out.append({"error": "x", "return_uri": EVIL, "error_description": "d"})
+    out.append({"error": "x", "return_uri": EVIL, "fragment_enc": "true"})
+    out.append({"response_msg": SMUGGLE["response_msg"][0], "response_placement": "body", "content_type": "text/html"})
+    out.append({"response_args": "x", "return_uri": EVIL, "fragment_enc": "true"})
+    for _ in range(40 if quick else 600):
+        k = rng.randint(2, 6)
+        out.append({n: rng.choice(SMUGGLE[n]) for n in rng.sample(names, k)})
+    out.append({n: SMUGGLE[n][0] for n in names})
+    return out
 
 
 class Run:
@@ -833,7 +983,9 @@ class Run:
         return out, allowed, reasons
 
     # ---- the whole endpoint
-    def endpoint_case(self, cfg, etype, label, uri, rng, rtype=None, mode="random", state=None):
+    def endpoint_case(self, cfg, etype, label, uri, rng, rtype=None, mode="random", state=None, extra=None):
+        """extra: further request parameters (the smuggle family: names that mean something only in the provider's
+        own result dictionaries)"""
         ctx = self.ctx
         name, app, regs = cfg
         op = self.ops[etype]
@@ -850,6 +1002,8 @@ class Run:
             req["redirect_uri"] = uri
         if mode:
             req["response_mode"] = mode
+        if extra:
+            req.update(extra)
         try:
             state.encode("utf-8"), req["nonce"].encode("utf-8")
         except UnicodeEncodeError:
@@ -857,6 +1011,12 @@ class Run:
         obs = op.host(req)
         rec = {"kind": "endpoint", "config": name, "endpoint_type": etype, "mutation": label, "request": req,
                "stage": obs["stage"], "redirect": obs["redirect"], "page": obs["page"], "direct": obs["direct"]}
+        if extra:
+            rec["extra"] = dict(extra)
+            rec["result_type"] = obs.get("result_type")
+            ctx.count("smuggled:" + {1: "one name", 2: "two names"}.get(len(extra), "three or more names"))
+            for n_ in extra:
+                ctx.count("smuggled-name:" + n_)
         ctx.case_seen(rec, True)
         ctx.count("endpoint:" + str(obs["stage"]))
         ctx.count("mode:%s" % mode)
@@ -881,7 +1041,14 @@ class Run:
                 ctx.violation(sig_of(reasons), "authorization endpoint (%s, %s) sends the user agent to %r for redirect_uri %r although %s; registered %r"
                               % (name, etype, (obs["redirect"] or obs["page"])[:300], uri, ",".join(reasons), [reg_exact(r) for r in regs]), rec)
         if sent:
+            n0 = len(ctx.violations)
             oracle_delivery(ctx, obs, req, rec, target if target is not None else (obs["return_uri"] or ""))
+            if extra:
+                # the request is a valid one: whatever else it carries, the answer goes to its registered redirect URI
+                for v in ctx.violations[n0:]:
+                    if v["sig"] == "target-changed":
+                        v["sig"] = "smuggled-return-uri"
+                        v["what"] = "request parameters %r steer the response: %s" % (sorted(extra), v["what"])
         # ---- model cases
         if obs["stage"] in ("parse-exc", "parse-err") or obs["parsed_redirect_uri"] is not None:
             if obs["stage"] == "parse-exc":
@@ -894,7 +1061,7 @@ class Run:
             if not skip:
                 self.dcases.append(("(%s, %s, %s, %s, (%s, %s))" % (coq_regs(regs), coq_bool(native), coq_bool(etype == "oidc"),
                                                                   coq_opt(uri, coq_str, "pystr"), coq_n(code), coq_str(u)), rec))
-        if obs["redirect"] is not None and obs["final_args"] is not None and obs["return_uri"] is not None:
+        if obs["redirect"] is not None and obs.get("final_args") is not None and obs["return_uri"] is not None:
             u = UP.urlsplit(obs["redirect"])
             frag = bool(obs["fragment_enc"])
             if not frag and obs["return_type"]:
@@ -902,14 +1069,15 @@ class Run:
                 frag = fragment_encoding(obs["return_type"])
             try:
                 fa, red = shorten(obs["final_args"], obs["redirect"], UP.quote_plus)
-                self.urlcases.append(("(%s, %s, %s, %s)" % (coq_str(obs["return_uri"]), coq_args(fa), coq_bool(frag),
-                                                          coq_str(red)), rec))
+                loc = target if (extra and target is not None) else obs["return_uri"]
+                self.urlcases.append(("(%s, %s, %s, %s)" % (coq_str(loc), coq_args(fa), coq_bool(frag), coq_str(red)), rec))
             except ValueError:
                 ctx.unmodelled += 1
-        if obs["page"] is not None and obs["issued"] is not None:
+        if obs["page"] is not None and obs.get("issued") is not None:
             try:
                 ia, pg = shorten(obs["issued"], obs["page"], lambda x: x)
-                self.formcases.append(("(%s, %s, %s)" % (coq_str(obs["return_uri"] or target), coq_args(ia), coq_str(pg)), rec))
+                loc = target if (extra and target is not None) else (obs["return_uri"] or target)
+                self.formcases.append(("(%s, %s, %s)" % (coq_str(loc), coq_args(ia), coq_str(pg)), rec))
             except ValueError:
                 ctx.unmodelled += 1
         return obs
@@ -955,10 +1123,57 @@ class Run:
 
 # ------------------------------------------------------------------ several requests in flight at one endpoint object
 FLIGHT_CLIENTS = ["client_1", "client_2", "client_3"]
-EV_SHORT = {"parse": "P", "process": "X", "auth": "A", "part2": "Z", "respond": "R"}
+EV_SHORT = {"parse": "P", "process": "X", "auth": "A", "part2": "Z", "respond": "R", "rereg": "G", "load": "L", "kill": "K"}
 EV_COQ = {"parse": "EvParse", "process": "EvProcess", "auth": "EvAuth", "part2": "EvPart2", "respond": "EvRespond"}
 FLIGHT_CONFIGS = ["web-plain", "web-query", "web-multi", "web-userinfo", "web-str", "web-str-query", "web-loop", "web-deep",
                   "native-v4", "native-v4-noport", "native-v6", "native-name", "native-https"]
+
+
+def reg_of_config(name):
+    """the registration a named configuration stands for, as a record {"name", "app", "regs"}"""
+    c = [c for c in CONFIGS if c[0] == name][0]
+    return {"name": c[0], "app": c[1], "regs": c[2]}
+
+
+def completion_sig(reasons):
+    """oracle keys of the completion stage (the SECOND judgement of the redirect URI, when the response is built)"""
+    if any(r in reasons for r in ("ctl", "fragment", "malformed")):
+        return "resumed-malformed-uri-redirect"
+    if reasons == ["empty-params"]:
+        return sig_of(reasons)          # the matcher's recorded near-miss (same root cause at either judgement)
+    return "completion-unregistered-target"
+
+
+NEW_R = R("https", "client.example.com", "/new-cb")
+
+
+def rereg_variants(reg, used):
+    """registrations a client may have moved to while a request carrying (a form of) its URI `used` is in flight:
+    controls that still cover it, and changes that do not (de-registered, replaced, component-wise moved, other
+    application type, nothing registered)"""
+    app, regs = reg["app"], reg["regs"]
+    others = [r for r in regs if r is not used]
+
+    def moved(**kw):
+        return others + [dict(copy.deepcopy(used), **kw)]
+    out = [("same", app, regs), ("added", app, regs + [NEW_R]), ("reordered", app, list(reversed(regs)) + [NEW_R]),
+           ("dropped", app, others or [NEW_R]), ("replaced", app, [NEW_R]), ("none", app, []),
+           ("path-moved", app, moved(path=used["path"] + "/v2")),
+           ("path-parent", app, moved(path=used["path"].rsplit("/", 1)[0] or "/")),
+           ("host-moved", app, moved(host="new.example.com")),
+           ("host-sub", app, moved(host="app." + used["host"]) if not used["host"].startswith("[") and not used["host"][:1].isdigit() else moved(host="localhost")),
+           ("port-moved", app, moved(port="8444" if used["port"] != "8444" else "8445")),
+           ("port-dropped" if used["port"] else "port-added", app, moved(port=None if used["port"] else "8443")),
+           ("scheme-moved", app, moved(scheme={"http": "https", "https": "http"}.get(used["scheme"], "https"))),
+           ("userinfo-moved", app, moved(userinfo=None if used["userinfo"] else "svc")),
+           ("app-type-flip", "native" if app == "web" else "web", regs)]
+    if used["form"] == "pair":
+        out.append(("query-moved", app, moved(qd={"foo": ["baz"]} if used["qd"] else {"v": ["2"]})))
+        if used["qd"]:
+            out.append(("query-dropped", app, moved(qd={})))
+    else:
+        out.append(("query-moved", app, moved(rawq="x=2", qd={"x": ["2"]})))
+    return [{"name": reg["name"] + "/" + n, "app": a, "regs": copy.deepcopy(rs)} for n, a, rs in out]
 
 
 def sched_text(sched):
@@ -968,7 +1183,7 @@ def sched_text(sched):
 def life(spec, i):
     """the calls a host makes for one request, in their order"""
     mid = [("process", i)] if spec["cont"] == "process" else [("auth", i), ("part2", i)]
-    return [("parse", i)] + mid + [("respond", i)]
+    return [("load", i) if spec.get("stored") else ("parse", i)] + mid + [("respond", i)]
 
 
 def sched_parse_all(specs, parse_order, proc_order, respond_late):
@@ -1020,6 +1235,8 @@ class Flights:
     def __init__(self, run_):
         self.run_, self.ctx = run_, run_.ctx
         self.cases = []
+        self.ccases = []
+        self.shared = Shared()
         self.saved = {}
 
     # ---- clients
@@ -1074,17 +1291,63 @@ class Flights:
         return {"cid": cid, "config": name, "mutation": label, "request": req, "cont": cont}
 
     # ---- the host application
-    def host(self, op, specs, sched):
-        """run the calls of `sched` on op.ep; returns (answers in the order they are handed out, per-request notes)"""
+    def host(self, op, specs, sched, reregs=()):
+        """run the calls of `sched` on op.ep; returns (answers in the order they are handed out, per-request notes).
+        ("rereg", k): the registration of client reregs[k]["cid"] becomes reregs[k]["reg"] (a registration dict
+        {"name", "app", "regs"}, or {"gone": True}: the client is deleted).  ("load", i): the host takes request i from
+        where it stored it (url-encoded, as example/flask_op/views.py keeps it in the login form) instead of parsing it."""
         from idpyoidc.message.oauth2 import ResponseMessage
         ep = op.ep
         hi = {"headers": {}}
         slots, answers, notes = {}, [], {}
         Op.current = op
+        now = {sp["cid"]: reg_of_config(sp["config"]) for sp in specs}      # the registration in force, per client
+        gone = {}
+        iframe = any(sp.get("stale_login") for sp in specs)
+        if iframe:
+            # session management is on: authz_part2 looks at the authentication event once more and builds
+            # 'No such session' / 'Authentication has timed out' errors itself
+            op.context.provider_info["check_session_iframe"] = "https://example.com/check_session_iframe"
+        try:
+            return self._host(op, ep, hi, specs, sched, reregs, slots, answers, notes, now, gone)
+        finally:
+            if iframe:
+                op.context.provider_info.pop("check_session_iframe", None)
+            Op.current = None
+            for cid, rec_ in gone.items():
+                op.context.cdb[cid] = rec_
+
+    def _host(self, op, ep, hi, specs, sched, reregs, slots, answers, notes, now, gone):
+        from idpyoidc.message.oauth2 import ResponseMessage
         for kind, i in sched:
+            if kind == "rereg":
+                rr = reregs[i]
+                cid = rr["cid"]
+                if rr["reg"].get("gone"):
+                    if cid in op.context.cdb:
+                        gone[cid] = op.context.cdb.pop(cid)
+                else:
+                    if cid in gone:
+                        op.context.cdb[cid] = gone.pop(cid)
+                    op.configure((rr["reg"]["name"], rr["reg"]["app"], rr["reg"]["regs"]), cid)
+                now[cid] = rr["reg"]
+                continue
             sp = specs[i]
             sl = slots.get(i)
+            if kind in ("process", "part2") and sl is not None and sl["stage"] == ("parsed" if kind == "process" else "authed"):
+                notes.setdefault(i, {})["reg_done"] = now[sp["cid"]]
+            if kind == "load":
+                slots.pop(i, None)
+                try:
+                    p = ep.request_cls().from_urlencoded(UP.urlencode(sp["request"]))
+                except Exception as e:
+                    answers.append({"i": i, "kind": "other", "what": "%s at load: %s" % (type(e).__name__, str(e)[:200])})
+                    continue
+                slots[i] = {"stage": "parsed", "p": p}
+                notes[i] = {"parsed_redirect_uri": p.get("redirect_uri"), "stored": True}
+                continue
             if kind == "parse":
+                notes.setdefault(i, {})["reg_parse"] = now[sp["cid"]]
                 slots.pop(i, None)
                 try:
                     p = ep.parse_request(dict(sp["request"]), http_info=hi)
@@ -1095,7 +1358,7 @@ class Flights:
                     answers.append({"i": i, "kind": "direct", "error": p.to_dict()})
                     continue
                 slots[i] = {"stage": "parsed", "p": p}
-                notes[i] = {"parsed_redirect_uri": p.get("redirect_uri")}
+                notes[i] = dict(notes.get(i, {}), parsed_redirect_uri=p.get("redirect_uri"))
                 continue
             if sl is None:
                 continue
@@ -1119,7 +1382,19 @@ class Flights:
                         p2 = type(p)().from_urlencoded(p.to_urlencoded())
                         sl["sid"] = ep.create_session(p2, "diana", picked["acr"], utc_time_sans_frac(), picked["method"])
                         sl["p"] = p2
+                        if sp.get("stale_login"):
+                            # time passes at the login page: the authentication is no longer valid when the flow is completed
+                            ev = op.context.session_manager.get_authentication_event(sl["sid"])
+                            ev["valid_until"] = utc_time_sans_frac() - 1
+                            if op.context.session_manager.get_authentication_event(sl["sid"]).is_valid() is False:
+                                notes.setdefault(i, {})["failed"] = True
                     sl["stage"] = "authed"
+                elif kind == "kill" and sl["stage"] == "authed":
+                    # the session the user just logged in to ends (logout elsewhere, administrative removal) before
+                    # the flow is completed: completion fails for a reason that has nothing to do with the redirect URI
+                    m = op.context.session_manager
+                    m.delete(list(m.decrypt_session_id(sl["sid"])))
+                    notes.setdefault(i, {})["failed"] = True
                 elif kind == "part2" and sl["stage"] == "authed":
                     op.issued = None
                     sl["args"] = ep.authz_part2(request=p, session_id=sl["sid"])
@@ -1128,6 +1403,8 @@ class Flights:
                     args = sl["args"]
                     slots.pop(i)
                     a = {"i": i, "kind": "other", "what": None}
+                    if hasattr(args, "get"):
+                        a["return_uri"] = args.get("return_uri")
                     if "redirect_location" in args or "http_response" in args or "response_args" not in args and "response_msg" not in args:
                         a["what"] = sorted(args.keys()) if hasattr(args, "keys") else str(type(args))
                         answers.append(a)
@@ -1151,13 +1428,15 @@ class Flights:
             except Exception as e:
                 slots.pop(i, None)
                 answers.append({"i": i, "kind": "other", "what": "%s at %s: %s" % (type(e).__name__, kind, str(e)[:200])})
-        Op.current = None
         return answers, notes
 
     # ---- the oracle
-    def own_target(self, sp, etype):
-        cfg = [c for c in CONFIGS if c[0] == sp["config"]][0]
-        name, app, regs = cfg
+    def own_target(self, sp, etype, reg=None):
+        """reg: the registration to judge by (default: the one the flight started with)"""
+        reg = reg or reg_of_config(sp["config"])
+        if reg.get("gone"):
+            return sp["request"].get("redirect_uri") or None, False, ["client-gone"], []
+        name, app, regs = reg["name"], reg["app"], reg["regs"]
         uri = sp["request"].get("redirect_uri")
         if uri == "":
             uri = None
@@ -1167,14 +1446,30 @@ class Flights:
         allowed = len(regs) == 1 and etype == "oauth2"
         return (reg_exact(regs[0]) if len(regs) == 1 else None), allowed, ["no redirect_uri in the request"], regs
 
-    def oracle(self, op, etype, specs, sched, a, rec):
+    def oracle(self, op, etype, specs, sched, a, rec, notes=None):
         ctx = self.ctx
         i = a["i"]
         sp = specs[i]
         req = sp["request"]
-        own, allowed, reasons, regs = self.own_target(sp, etype)
+        note = (notes or {}).get(i, {})
+        # the registration in force when the response was built (process_request / authz_part2)
+        done = note.get("reg_done")
+        own, allowed, reasons, regs = self.own_target(sp, etype, done)
+        if done is not None and not req.get("redirect_uri") and note.get("parsed_redirect_uri") and not done.get("gone") \
+                and not note.get("stored"):
+            # no redirect_uri in the request: parse_request chose the single URI registered THEN; it is judged like a
+            # requested one against the registration in force at completion
+            own = note["parsed_redirect_uri"]
+            allowed, reasons = oracle_match(own, done["regs"], done["app"] == "native")
+        completion = bool(rec.get("completion"))
         where = "request %d (%s, redirect_uri %r, state %r) in schedule [%s]" % (i, sp["cid"], req.get("redirect_uri"), req.get("state"), sched_text(sched))
+        if completion:
+            where += "; registered when the response was built: %s" % ("client deleted" if (done or {}).get("gone") else [reg_exact(r) for r in regs])
         if a["kind"] not in ("redirect", "page"):
+            if completion and done is not None and not allowed and a.get("return_uri"):
+                # nothing was handed out by do_response, but the result names a place to send the user agent to
+                ctx.violation(completion_sig(reasons), "the result of %s for %s names return_uri %r although %s"
+                              % ("authz_part2" if sp["cont"] != "process" else "process_request", where, a["return_uri"], ",".join(reasons)), rec)
             return
         text = a["text"]
         if a["kind"] == "page":
@@ -1185,7 +1480,8 @@ class Flights:
         else:
             actual = text
         if not allowed:
-            ctx.violation(sig_of(reasons), "authorization endpoint sends the user agent to %r for %s although %s; registered %r"
+            ctx.violation(completion_sig(reasons) if completion else sig_of(reasons),
+                          "authorization endpoint sends the user agent to %r for %s although %s; registered %r"
                           % ((actual or "")[:300], where, ",".join(reasons), [reg_exact(r) for r in regs]), rec)
             return
         # (1) the target is the redirect URI of the request being answered
@@ -1208,7 +1504,7 @@ class Flights:
             # is the place it went to at least registered for the client of this request?
             base = (actual or "").split("#", 1)[0]
             cand = [base, base.split("?", 1)[0]] + [o for o in (self.own_target(x, etype)[0] for x in specs) if o and (actual or "").startswith(o)]
-            registered_here = any(oracle_match(c, regs, [c_ for c_ in CONFIGS if c_[0] == sp["config"]][0][1] == "native")[0] for c in cand)
+            registered_here = any(oracle_match(c, regs, (done or reg_of_config(sp["config"])).get("app") == "native")[0] for c in cand)
             ctx.violation("cross-request-target" if others else "target-changed",
                           "the response for %s is sent to %r%s, not to the redirect URI of its own request %r%s"
                           % (where, (actual or "")[:300], " = the target of " + ", ".join(others) if others else "", own,
@@ -1236,28 +1532,36 @@ class Flights:
                               % (where, owner, st), rec)
 
     # ---- one flight
-    def fly(self, etype, specs, sched, family):
+    def fly(self, etype, specs, sched, family, reregs=()):
         ctx = self.ctx
         op = self.run_.ops[etype]
         self.prepare(op)
         for sp in specs:
             op.configure([c for c in CONFIGS if c[0] == sp["config"]][0], sp["cid"])
-        answers, notes = self.host(op, specs, sched)
+        reregs = [dict(r) for r in reregs]
+        answers, notes = self.host(op, specs, sched, reregs)
         rec = {"kind": "flight", "endpoint_type": etype, "family": family, "specs": specs, "schedule": [list(e) for e in sched],
                "schedule_text": sched_text(sched),
                "answers": [{"i": a["i"], "kind": a["kind"], "out": (a.get("text") or a.get("what") or a.get("exc") or "")[:400]} for a in answers]}
+        completion = bool(reregs) or any(sp.get("stored") or sp.get("stale_login") for sp in specs) or any(k == "kill" for k, _ in sched)
+        if completion:
+            rec["reregs"] = reregs
+            rec["completion"] = True
         ctx.case_seen(rec, True)
         ctx.count("flight:%s:k=%d" % (family, len(specs)))
         for a in answers:
-            ctx.count("flight-answer:" + a["kind"])
+            ctx.count(("completion-answer:" if completion else "flight-answer:") + a["kind"])
             if a["kind"] in ("redirect", "page"):
                 ctx.count("flight-cont:" + specs[a["i"]]["cont"])
-            self.oracle(op, etype, specs, sched, a, rec)
+            self.oracle(op, etype, specs, sched, a, rec, notes)
         # a request that was parsed successfully, processed and responded to must have been answered
         for i, sp in enumerate(specs):
-            evs = [k for k, j in sched if j == i]
+            evs = [k for k, j in sched if j == i and k not in ("rereg",)]
             if "respond" in evs and not [a for a in answers if a["i"] == i]:
                 ctx.violation("flight-no-answer", "request %d gets no answer in schedule [%s]" % (i, sched_text(sched)), rec)
+        if completion:
+            self.completion_cases(etype, specs, sched, answers, notes, rec)
+            return answers
         # ---- model case: (requests with what was issued for them, schedule, answers)
         by_i = {}
         for a in answers:
@@ -1294,6 +1598,59 @@ class Flights:
         except ValueError:
             ctx.unmodelled += 1
         return answers
+
+    # ---- model cases of the completion stage: one per request, with the registration in force when it was parsed
+    #      (inside the areq) and the one in force when its response was built
+    def completion_cases(self, etype, specs, sched, answers, notes, rec):
+        ctx = self.ctx
+        by_i = {}
+        for a in answers:
+            if a["i"] in by_i:
+                ctx.unmodelled += 1
+                return
+            by_i[a["i"]] = a
+        for i, sp in enumerate(specs):
+            a = by_i.get(i)
+            note = notes.get(i, {})
+            if a is None:
+                continue
+            req = sp["request"]
+            g0 = note.get("reg_parse") or reg_of_config(sp["config"])
+            g1 = note.get("reg_done") or g0
+            uri = req.get("redirect_uri") or None
+            if g0.get("gone") or (uri is None and etype == "oidc"):
+                ctx.unmodelled += 1
+                continue
+            done = "reached" if note.get("reg_done") is not None else "not-reached"
+            ctx.count("completion:%s:%s" % ("stored" if sp.get("stored") else "parsed", done))
+            if note.get("failed") and note.get("reg_done") is not None:
+                ctx.count("completion-failed:%s" % ("login-timed-out" if sp.get("stale_login") else "session-ended"))
+            if note.get("reg_done") is not None:
+                verdict = self.own_target(sp, etype, g1)[1] if uri is not None else None
+                ctx.count("completion-uri:%s" % {True: "registered-now", False: "not-registered-now", None: "chosen-at-parse"}[verdict])
+            try:
+                if a["kind"] == "redirect":
+                    items, text = shorten(a.get("final_args") or [], a["text"], UP.quote_plus)
+                    obs = "(ARedirect %s)" % coq_str(text)
+                elif a["kind"] == "page":
+                    items, text = shorten(a.get("issued") or [], a["text"], lambda x: x)
+                    obs = "(APage %s)" % coq_str(text)
+                else:
+                    obs = {"direct": "ADirect", "raised": "ARaised"}.get(a["kind"], "AOther")
+                    items = a.get("final_args") or []
+                md = {None: "MNone", "query": "MQuery", "fragment": "MFragment", "form_post": "MForm"}[req.get("response_mode")]
+                sh = self.shared
+                regs_sh = lambda regs: sh.share(coq_regs(regs), "list reg")
+                args_c = coq_list(["(%s, %s)" % (sh.s(k), sh.share(coq_fval(v), "fval")) for k, v in items if v is not None], "(pystr * fval)")
+                areq = "(mk_areq %s %s %s %s %s %s %s)" % (regs_sh(g0["regs"]), coq_bool(g0["app"] == "native"), coq_bool(etype == "oidc"),
+                                                           coq_opt(uri, sh.s, "pystr"), coq_bool(md == "MForm"),
+                                                           coq_bool(req["response_type"] != "code"), args_c)
+                g1c = "Gone" if g1.get("gone") else "(Reg %s %s)" % (regs_sh(g1["regs"]), coq_bool(g1["app"] == "native"))
+                term = "(%s, %s, %s, %s, %s, %s, %s)" % (coq_bool(bool(sp.get("stored"))), coq_bool(sp["cont"] == "process"),
+                                                         coq_bool(bool(note.get("failed"))), g1c, md, areq, obs)
+                self.ccases.append((term, dict(rec, request_number=i)))
+            except (ValueError, KeyError):
+                ctx.unmodelled += 1
 
     # ---- generation
     def pick_configs(self, rng, k, distinct=True):
@@ -1373,12 +1730,168 @@ class Flights:
                 self.fly(etype, specs, sched_random(rng, specs), "random-merge")
             else:
                 self.fly(etype, specs, [e for i in range(k) for e in life(specs[i], i)], "sequential")
+        self.run_completion(rng, quick)
         self.restore()
         return self.groups()
 
+    # ---- the second judgement of the redirect URI: the registration in force when the response is built
+    def accepted_forms(self, reg, r):
+        """forms of the registered URI r that the property lets through under `reg` (the exact one first)"""
+        out = [("exact", reg_exact(r))]
+        for label, u in mutants_single(r):
+            if label != "exact" and u != out[0][1] and oracle_match(u, reg["regs"], reg["app"] == "native")[0]:
+                out.append((label, u))
+        return out
+
+    def completion_flight(self, rng, etype, sp, reg2, place, kill=False, family="re-registered", other=None):
+        """one request whose client moves to registration reg2 (None: no change) while it is in flight.
+        place: where the change happens - 'before-parse', 'after-parse' (before process / login) or 'after-login'"""
+        specs = [sp] + ([other] if other else [])
+        reregs = [{"cid": sp["cid"], "reg": reg2}] if reg2 is not None else []
+        first = ("load", 0) if sp.get("stored") else ("parse", 0)
+        g = [("rereg", 0)] if reregs else []
+        if sp["cont"] == "process":
+            sched = (g if place == "before-parse" else []) + [first] + (g if place != "before-parse" else []) + [("process", 0), ("respond", 0)]
+        else:
+            k = [("kill", 0)] if kill else []
+            if place == "before-parse":
+                sched = g + [first, ("auth", 0)] + k + [("part2", 0), ("respond", 0)]
+            elif place == "after-parse":
+                sched = [first] + g + [("auth", 0)] + k + [("part2", 0), ("respond", 0)]
+            else:
+                sched = [first, ("auth", 0)] + (k + g if rng.random() < 0.5 else g + k) + [("part2", 0), ("respond", 0)]
+        if other:
+            # the other client's request is in flight too; its calls fall between those of the first
+            ol = life(other, 1)
+            merged = []
+            for ev in sched:
+                while ol and rng.random() < 0.4:
+                    merged.append(ol.pop(0))
+                merged.append(ev)
+            sched = merged + ol
+        return self.fly(etype, specs, sched, family, reregs=reregs)
+
+    def run_completion(self, rng, quick):
+        import logging
+        logging.disable(logging.CRITICAL)      # the provider logs every refusal; keep the check's output readable
+        try:
+            self._run_completion(rng, quick)
+        finally:
+            logging.disable(logging.NOTSET)
+
+    def _run_completion(self, rng, quick):
+        by = {c[0]: c for c in CONFIGS}
+        conts = ["process", "setup_auth", "create_session"]
+        n = 0
+        # (a) the client's registration changes between parse_request and the completion of the request
+        for etype in ("oidc", "oauth2"):
+            rts = RTYPES_OIDC if etype == "oidc" else RTYPES_OAUTH
+            for cname in FLIGHT_CONFIGS:
+                reg = reg_of_config(cname)
+                for used in reg["regs"]:
+                    forms = self.accepted_forms(reg, used)
+                    for reg2 in rereg_variants(reg, used):
+                        n += 1
+                        if quick and n % 2 and not reg2["name"].endswith(("/dropped", "/replaced", "/same")):
+                            continue
+                        label, uri = forms[0] if rng.random() < 0.6 else rng.choice(forms)
+                        cont = conts[n % 3]
+                        sp = self.spec(rng, etype, 0, "client_1", by[cname], uri=uri, rtype=rts[n % len(rts)], mode=MODES[(n // 3) % 4], cont=cont)
+                        sp["mutation"] = label
+                        if cont == "create_session" and n % 4 == 3:
+                            sp["stale_login"] = True        # session management on, the login no longer valid at completion
+                        place = ("after-parse", "after-login", "before-parse", "after-parse")[(n // 2) % 4] if cont != "process" else \
+                                ("after-parse", "after-parse", "before-parse")[(n // 2) % 3]
+                        other = None
+                        if n % 5 == 0:
+                            other = self.spec(rng, etype, 1, "client_2", by[rng.choice(FLIGHT_CONFIGS)])
+                        self.completion_flight(rng, etype, sp, reg2, place, kill=(cont != "process" and n % 4 == 1), other=other)
+                # no redirect_uri in the request: the single registered URI chosen at parse time, then moved
+                if etype == "oauth2" and len(reg["regs"]) == 1:
+                    for reg2 in rng.sample(rereg_variants(reg, reg["regs"][0]), 4):
+                        sp = self.spec(rng, etype, 0, "client_1", by[cname], uri=None, cont=rng.choice(conts))
+                        self.completion_flight(rng, etype, sp, reg2, "after-parse", family="re-registered-default-uri")
+            # the client is deleted / the URI is dropped and registered again while the user is at the login page
+            for cname in ("web-plain", "web-multi", "native-v4"):
+                reg = reg_of_config(cname)
+                used = reg["regs"][0]
+                for mode in MODES:
+                    sp = self.spec(rng, etype, 0, "client_1", by[cname], uri=reg_exact(used), mode=mode, cont=rng.choice(conts[1:]))
+                    self.completion_flight(rng, etype, sp, {"gone": True, "name": cname + "/client-deleted"}, "after-login", family="client-deleted")
+                    sp = self.spec(rng, etype, 0, "client_1", by[cname], uri=reg_exact(used), mode=mode, cont="process")
+                    self.completion_flight(rng, etype, sp, {"gone": True, "name": cname + "/client-deleted"}, "after-parse", family="client-deleted")
+                    sp = self.spec(rng, etype, 0, "client_1", by[cname], uri=reg_exact(used), mode=mode, cont=rng.choice(conts[1:]))
+                    dropped = [v for v in rereg_variants(reg, used) if v["name"].endswith("/replaced")][0]
+                    self.fly(etype, [sp], [("parse", 0), ("rereg", 0), ("auth", 0), ("rereg", 1), ("part2", 0), ("respond", 0)], "dropped-and-back",
+                             reregs=[{"cid": "client_1", "reg": dropped}, {"cid": "client_1", "reg": reg}])
+        # (b) the flow is resumed after login from a STORED request (create_session + authz_part2, never parsed by the
+        #     endpoint): every single-fault form of the registered URIs, never-registered ones, formerly registered ones
+        never = [("never-registered", EVIL), ("never-registered-path", "https://client.example.com/other"),
+                 ("never-registered-fragment", EVIL + "#"), ("never-registered-host-only", "https://evil.example.org")]
+        for etype in ("oidc", "oauth2"):
+            rts = RTYPES_OIDC if etype == "oidc" else RTYPES_OAUTH
+            for cname in ("web-plain", "web-query", "web-multi", "web-str-query", "native-v4", "native-v6", "web-userinfo"):
+                reg = reg_of_config(cname)
+                pool = []
+                for r in reg["regs"]:
+                    pool += mutants_single(r)
+                pool += never
+                for label, uri in pool:
+                    n += 1
+                    keep = label in ("exact", "host-other", "path-add", "tail-hash", "tail-frag", "host-tab", "lead-space", "q-add", "scheme-swap") \
+                        or label.startswith("never")
+                    if quick and not keep and rng.random() < 0.88:
+                        continue
+                    try:
+                        uri.encode("utf-8")
+                    except UnicodeEncodeError:
+                        continue
+                    sp = self.spec(rng, etype, 0, "client_1", by[cname], uri=uri, rtype=rts[n % len(rts)], mode=MODES[(n // 2) % 4], cont="create_session")
+                    sp.update(stored=True, mutation=label)
+                    if n % 3 == 1:
+                        sp["stale_login"] = True
+                    self.completion_flight(rng, etype, sp, None, "after-parse", kill=(n % 3 == 0), family="stored")
+                # stored while registered, de-registered before the user comes back
+                for used in reg["regs"]:
+                    for reg2 in rereg_variants(reg, used):
+                        n += 1
+                        if quick and n % 3:
+                            continue
+                        sp = self.spec(rng, etype, 0, "client_1", by[cname], uri=reg_exact(used), rtype=rts[n % len(rts)], mode=MODES[(n // 2) % 4], cont="create_session")
+                        sp.update(stored=True, mutation="exact")
+                        self.completion_flight(rng, etype, sp, reg2, ("before-parse", "after-parse", "after-login")[n % 3], kill=(n % 4 == 0), family="stored-re-registered")
+        # (c) random: stored or parsed, multi-fault URIs, a second client's request in flight, any registration change
+        for _ in range(60 if quick else 3000):
+            etype = rng.choice(["oidc", "oauth2"])
+            cname = rng.choice(FLIGHT_CONFIGS)
+            reg = reg_of_config(cname)
+            used = rng.choice(reg["regs"])
+            stored = rng.random() < 0.5
+            if stored and rng.random() < 0.5:
+                label, uri = mutant_multi(rng, used) if rng.random() < 0.5 else rng.choice(mutants_single(used))
+            else:
+                label, uri = rng.choice(self.accepted_forms(reg, used))
+            try:
+                uri.encode("utf-8")
+            except UnicodeEncodeError:
+                continue
+            cont = "create_session" if stored else rng.choice(conts)
+            sp = self.spec(rng, etype, 0, "client_1", by[cname], uri=uri, cont=cont)
+            sp["mutation"] = label
+            if stored:
+                sp["stored"] = True
+            if cont == "create_session" and rng.random() < 0.25:
+                sp["stale_login"] = True
+            reg2 = rng.choice(rereg_variants(reg, used)) if rng.random() < 0.8 else None
+            other = self.spec(rng, etype, 1, "client_2", by[rng.choice(FLIGHT_CONFIGS)]) if rng.random() < 0.4 else None
+            self.completion_flight(rng, etype, sp, reg2, rng.choice(["before-parse", "after-parse", "after-login"]),
+                                   kill=(cont != "process" and rng.random() < 0.3), family="random-completion", other=other)
+
     def groups(self):
-        return [{"imports": ["Lib.Base", "Lib.PyStr", "Lib.Urlenc", "Lib.Html", "Model.Uri", "Model.Delivery", "Model.Flight"],
-                 "type": "fcase", "chk": "chk_flight", "cases": self.cases, "shard": 24, "label": "flight", "diag": "diag_flight"}]
+        imp = ["Lib.Base", "Lib.PyStr", "Lib.Urlenc", "Lib.Html", "Model.Uri", "Model.Delivery", "Model.Flight"]
+        return [{"imports": imp, "type": "fcase", "chk": "chk_flight", "cases": self.cases, "shard": 24, "label": "flight", "diag": "diag_flight"},
+                {"imports": imp, "type": "ccase", "chk": "chk_complete", "cases": self.ccases, "shard": 80, "label": "complete",
+                 "diag": "diag_complete", "shared": self.shared}]
 
 
 # ------------------------------------------------------------------ end-session endpoint
@@ -1566,6 +2079,14 @@ def run(ctx):
         cfg = rng.choice(good)
         etype = rng.choice(["oidc", "oauth2"])
         run_.endpoint_case(cfg, etype, "exact", reg_exact(rng.choice(cfg[2])), rng)
+    # 3b. valid requests that also carry names of the provider's own result dictionaries as parameters
+    for k, extra in enumerate(smuggle_sets(rng, quick)):
+        etype = ("oidc", "oauth2")[k % 2]
+        cfg = good[k % 3]
+        run_.endpoint_case(cfg, etype, "smuggled", reg_exact(rng.choice(cfg[2])), rng,
+                           mode=MODES[(k // 2) % 4], state=rng.choice(["st", hostile(rng)]), extra=extra)
+        if k % 7 == 0:
+            run_.endpoint_case(cfg, "oidc", "smuggled", reg_exact(rng.choice(cfg[2])), rng, rtype="code", mode=None, state="st", extra=extra)
     # 4. several requests in flight at one endpoint object (interleaved calls, login continuation)
     fl = Flights(run_)
     extra = fl.run(rng, quick)
@@ -1595,14 +2116,16 @@ def replay(ctx, rp):
         req = case["request"]
         run_ = Run(ctx)
         run_.endpoint_case(cfg, case["endpoint_type"], case["mutation"], req.get("redirect_uri"), ctx.rng,
-                           rtype=req["response_type"], mode=req.get("response_mode"), state=req.get("state"))
+                           rtype=req["response_type"], mode=req.get("response_mode"), state=req.get("state"),
+                           extra=case.get("extra"))
         run_.flush()
         return
     if case.get("kind") == "flight":
         run_ = Run(ctx)
         fl = Flights(run_)
         print("replaying schedule [%s] on the %s endpoint" % (sched_text([tuple(e) for e in case["schedule"]]), case["endpoint_type"]))
-        fl.fly(case["endpoint_type"], case["specs"], [tuple(e) for e in case["schedule"]], case.get("family", "replay"))
+        fl.fly(case["endpoint_type"], case["specs"], [tuple(e) for e in case["schedule"]], case.get("family", "replay"),
+               reregs=case.get("reregs") or ())
         fl.restore()
         check_groups(ctx, fl.groups())
         return
